@@ -180,6 +180,7 @@ class _DisconnectFactory:
     ) -> None:
         self._protocolFactory = protocolFactory
         self._protocolDisconnected = protocolDisconnected
+        self._abandoned = False
 
     def buildProtocol(self, addr: IAddress) -> Optional[IProtocol]:
         """
@@ -191,6 +192,10 @@ class _DisconnectFactory:
         @return: a L{_ReconnectingProtocolProxy} for a protocol produced by
             C{self._protocolFactory}
         """
+        if self._abandoned:
+            # The attempt this factory was made for is over (it failed or was
+            # cancelled); an endpoint that connects anyway gets no protocol.
+            return None
         built = self._protocolFactory.buildProtocol(addr)
         if built is None:
             return None
@@ -301,9 +306,14 @@ def makeMachine() -> Callable[[_Core], _Client]:
         # https://github.com/Shoobx/mypy-zope/issues/95
         connectingProxy: Deferred[_ReconnectingProtocolProxy]
         connectingProxy = connecting  # type:ignore[assignment]
+        def abandon(failure: Failure) -> Failure:
+            factoryProxy._abandoned = True
+            return failure
+
         (
             connectingProxy.addCallback(prepare)
             .addCallback(c._connectionMade)
+            .addErrback(abandon)
             .addErrback(c._connectionFailed)
         )
         return connectingProxy
